@@ -31,6 +31,7 @@ def _child(src: str, out_path: str, cwd: str):
         os.dup2(devnull, 2)
         resource.setrlimit(resource.RLIMIT_CPU, (TIMEOUT_S, TIMEOUT_S + 1))
         resource.setrlimit(resource.RLIMIT_FSIZE, (MAX_OUT, MAX_OUT))
+        signal.signal(signal.SIGALRM, signal.SIG_DFL)
         signal.alarm(TIMEOUT_S + 1)
         import socket
 
@@ -71,15 +72,14 @@ def _child(src: str, out_path: str, cwd: str):
         os._exit(96)
 
 
-def run_one(src: str, scratch: str) -> dict:
+def run_one(src: str, scratch: str, cwd: str | None = None) -> dict:
+    """cwd: the working directory of the program; the same path for every execution of a run so that a program that
+    prints os.getcwd() is still deterministic."""
     out_path = os.path.join(scratch, "out.bin")
-    cwd = os.path.join(scratch, "cwd")
+    cwd = cwd or os.path.join(scratch, "cwd")
     for p in (out_path, out_path + ".exc"):
         if os.path.exists(p):
             os.unlink(p)
-    if os.path.isdir(cwd):
-        import shutil
-        shutil.rmtree(cwd, ignore_errors=True)
     os.makedirs(cwd, exist_ok=True)
     pid = os.fork()
     if pid == 0:
@@ -116,14 +116,16 @@ def run_one(src: str, scratch: str) -> dict:
 
 
 def main():
-    scratch = tempfile.mkdtemp(prefix="c01exec-", dir=sys.argv[1] if len(sys.argv) > 1 else None)
+    base = sys.argv[1] if len(sys.argv) > 1 else None
+    scratch = tempfile.mkdtemp(prefix="c01exec-", dir=base)
+    cwd = os.path.join(base, "cwd") if base else None
     try:
         for line in sys.stdin:
             line = line.strip()
             if not line:
                 continue
             job = json.loads(line)
-            res = run_one(job["src"], scratch)
+            res = run_one(job["src"], scratch, cwd)
             res["id"] = job["id"]
             sys.stdout.write(json.dumps(res) + "\n")
             sys.stdout.flush()
